@@ -350,6 +350,12 @@ func genFaulty(t *rapid.T) pairsim.Scenario {
 			op.Notifs = rapid.IntRange(0, 3).Draw(t, "notifs")
 			op.NotifLen = size("nlen", ss)
 		}
+		// a second feature in the same exchange: the request carries No-Response (RFC 7967). The body
+		// still has to reach the handler intact and once; a response that is not withheld still has to
+		// be the complete one
+		if op.Kind != "observe" && rapid.IntRange(0, 5).Draw(t, "norespq") == 0 {
+			op.NoResp = rapid.SampledFrom([]int{2, 8, 16, 26, 24}).Draw(t, "noresp")
+		}
 		sc.Ops = append(sc.Ops, op)
 	}
 	// A caller that re-uses a token accepts that a late copy of an answer to the earlier exchange
@@ -394,6 +400,9 @@ func genTCP(t *rapid.T) pairsim.Scenario {
 			op.Up = sz("up")
 		}
 		op.Down = sz("down")
+		if rapid.IntRange(0, 5).Draw(t, "norespq") == 0 {
+			op.NoResp = rapid.SampledFrom([]int{2, 8, 16, 26, 24}).Draw(t, "noresp")
+		}
 		sc.Ops = append(sc.Ops, op)
 	}
 	return sc
